@@ -81,6 +81,11 @@ def scenarios(draw):
     sc["gz_reference"] = src.bool(0.3)
     sc["stale_dir"] = src.bool(0.35)
     sc["stale_mask"] = [src.bool(0.5) for _ in sc["reads"]]
+    # how the inputs are named: a YAML description instead of --bam; paths relative to the working directory of the first
+    # run (the resumed run is started from another directory); an output folder whose name means something to glob
+    sc["input_mode"] = src.choice(["bam", "bam", "yaml"])
+    sc["relative"] = src.bool(0.5)
+    sc["out_suffix"] = src.choice(["", "", "[1]", "_x*"])
     return sc
 
 
@@ -110,7 +115,46 @@ def prepare(sc, d):
                 if r.get("tags"):
                     f.write("%s\t%s\n" % (r["n"], r["tags"]["RG"]))
         extra = ["--read_group", "file:" + tp]
+    if sc.get("input_mode") == "yaml":
+        import json
+        yp = os.path.join(d, "in", "dataset.yaml")
+        with open(yp, "w") as f:
+            json.dump([{"data format": "bam"},
+                       {"name": "OUT", "long read files": [os.path.basename(b) for b in paths["bams"]]}], f)
+        paths["yaml"] = yp
     return paths, extra
+
+
+def argv_for(sc, paths, out, extra):
+    """command line of a (first) run and the directory it is started from"""
+    argv = build.base_argv(sc, paths, out, extra)
+    if paths.get("yaml"):
+        i = argv.index("--bam")
+        j = i + 1
+        while j < len(argv) and not argv[j].startswith("--"):
+            j += 1
+        argv[i:j] = ["--yaml", paths["yaml"]]
+    cwd = os.path.dirname(paths["fasta"])
+    if sc.get("relative"):
+        pre = cwd + os.sep
+        argv = [a[len(pre):] if a.startswith(pre) else ("file:" + a[5 + len(pre):]) if a.startswith("file:" + pre) else a
+                for a in argv]
+    return argv, cwd
+
+
+def first_run(sc, paths, out, extra, home, log, crash=None):
+    """a run with the generated options, started from the folder of the inputs; crash = arguments of crashwrap.install"""
+    argv, cwd = argv_for(sc, paths, out, extra)
+    return run.run_fork(argv, home, log, env={"ABLAB_ISOQUANT_VERIF": "1"} if crash else None,
+                        pre=at(cwd, (lambda: crashwrap.install(*crash)) if crash else None))
+
+
+def at(cwd, then=None):
+    def pre():
+        os.chdir(cwd)
+        if then:
+            then()
+    return pre
 
 
 def make_stale(sc, d, paths, extra, ctx):
@@ -146,21 +190,18 @@ def enumerate_scenario(sc, ctx, shard, nshards, modes, stride=1, double_stride=2
         paths, extra = prepare(sc, d)
         home = os.path.join(d, "home")
         clean_out = os.path.join(d, "clean")
-        argv = build.base_argv(sc, paths, clean_out, extra)
         ctx.pipeline_runs += 1
         fresh_reference(paths)
-        if run.run_fork(argv, os.path.join(d, "home_clean"), os.path.join(d, "clean.log")) != 0:
+        if first_run(sc, paths, clean_out, extra, os.path.join(d, "home_clean"), os.path.join(d, "clean.log")) != 0:
             ctx.note("clean_run_failed")
             return
         stale = make_stale(sc, d, paths, extra, ctx)
         lab = os.path.join(d, "labels.txt")
-        list_out = os.path.join(d, "listing")
+        list_out = os.path.join(d, "listing" + sc.get("out_suffix", ""))
         ctx.pipeline_runs += 1
         fresh_reference(paths)
-        code = run.run_fork(build.base_argv(sc, paths, list_out, extra + start_dir(stale, list_out)),
-                            os.path.join(d, "home_list"),
-                            os.path.join(d, "list.log"), env={"ABLAB_ISOQUANT_VERIF": "1"},
-                            pre=lambda: crashwrap.install(0, "before", lab))
+        code = first_run(sc, paths, list_out, extra + start_dir(stale, list_out), os.path.join(d, "home_list"),
+                         os.path.join(d, "list.log"), crash=(0, "before", lab))
         if code != 0 or not os.path.exists(lab):
             ctx.harness_errors.append("instrumented listing run failed")
             return
@@ -180,13 +221,12 @@ def enumerate_scenario(sc, ctx, shard, nshards, modes, stride=1, double_stride=2
                 ctx.cls("phase=" + phase, "mode=" + mode)
                 if phase != "setup":
                     ctx.nontrivial_n += 1
-                out = os.path.join(d, "crash_%s_%d" % (mode, k))
+                out = os.path.join(d, "crash_%s_%d%s" % (mode, k, sc.get("out_suffix", "")))
                 h = os.path.join(d, "home_%s_%d" % (mode, k))
-                cargv = build.base_argv(sc, paths, out, extra + start_dir(stale, out))
                 ctx.pipeline_runs += 1
                 fresh_reference(paths)
-                code = run.run_fork(cargv, h, os.path.join(d, "crash.log"), env={"ABLAB_ISOQUANT_VERIF": "1"},
-                                    pre=lambda k=k, mode=mode: crashwrap.install(k, mode, None))
+                code = first_run(sc, paths, out, extra + start_dir(stale, out), h, os.path.join(d, "crash.log"),
+                                 crash=(k, mode, None))
                 case = {"scenario": sc, "k": k, "mode": mode, "label": label}
                 if code != crashwrap.EXIT_CODE:
                     if code == 0:
@@ -237,15 +277,14 @@ def enumerate_scenario(sc, ctx, shard, nshards, modes, stride=1, double_stride=2
 
 def params_index(sc, d, paths, extra, stale, k, ctx):
     """index of the mutation of a resumed run that rewrites .params (its first mutations are the same at every k)"""
-    out = os.path.join(d, "plist")
+    out = os.path.join(d, "plist" + sc.get("out_suffix", ""))
     h = os.path.join(d, "home_plist")
     lab = os.path.join(d, "plist.txt")
     try:
         ctx.pipeline_runs += 2
         fresh_reference(paths)
-        code = run.run_fork(build.base_argv(sc, paths, out, extra + start_dir(stale, out)), h,
-                            os.path.join(d, "crash.log"), env={"ABLAB_ISOQUANT_VERIF": "1"},
-                            pre=lambda: crashwrap.install(k, "after", None))
+        code = first_run(sc, paths, out, extra + start_dir(stale, out), h, os.path.join(d, "crash.log"),
+                         crash=(k, "after", None))
         if code != crashwrap.EXIT_CODE:
             return 1
         run.run_fork(["--resume", "-o", out], h, os.path.join(d, "resume1.log"), env={"ABLAB_ISOQUANT_VERIF": "1"},
@@ -262,14 +301,13 @@ def params_index(sc, d, paths, extra, stale, k, ctx):
 
 def double_kill(sc, d, paths, extra, stale, clean_out, case, phase, ctx, n=None):
     k, k2, mode2, label = case["k"], case["k2"], case["mode2"], case["label"]
-    out = os.path.join(d, "dbl_%d_%d" % (k, k2))
+    out = os.path.join(d, "dbl_%d_%d%s" % (k, k2, sc.get("out_suffix", "")))
     h = os.path.join(d, "home_dbl_%d_%d" % (k, k2))
     try:
         ctx.pipeline_runs += 1
         fresh_reference(paths)
-        code = run.run_fork(build.base_argv(sc, paths, out, extra + start_dir(stale, out)), h,
-                            os.path.join(d, "crash.log"), env={"ABLAB_ISOQUANT_VERIF": "1"},
-                            pre=lambda: crashwrap.install(k, case["mode"], None))
+        code = first_run(sc, paths, out, extra + start_dir(stale, out), h, os.path.join(d, "crash.log"),
+                         crash=(k, case["mode"], None))
         if code != crashwrap.EXIT_CODE:
             ctx.note("crash_point_not_reached" if code == 0 else "crash_run_exit_%s" % code)
             return
@@ -321,6 +359,11 @@ def run_enumeration(shard, nshards, seed, n, ctx, tier="quick"):
             sc["opts"] = [o for o in sc["opts"] if o != "--keep_tmp"]
         sc["stale_dir"] = i % 2 == 1
         sc["gz_reference"] = i % 2 == 0
+        if i < 2:
+            # relative names are made absolute when the parameters are saved: a superset of runs given absolute names
+            sc["relative"] = True
+            sc["input_mode"] = ["bam", "yaml"][i]
+            sc["out_suffix"] = ["", "[1]"][i]
         enumerate_scenario(sc, ctx, shard, nshards, modes, double_stride=2 if tier == "quick" else 1)
     ctx.evaluations = 0
     body()
@@ -334,21 +377,19 @@ def eval_replay(case, ctx):
         clean_out = os.path.join(d, "clean")
         ctx.pipeline_runs += 1
         fresh_reference(paths)
-        if run.run_fork(build.base_argv(sc, paths, clean_out, extra), os.path.join(d, "home_clean"),
-                        os.path.join(d, "clean.log")) != 0:
+        if first_run(sc, paths, clean_out, extra, os.path.join(d, "home_clean"), os.path.join(d, "clean.log")) != 0:
             ctx.harness_errors.append("clean run failed in replay")
             return
         stale = make_stale(sc, d, paths, extra, ctx)
         if "k2" in case:
             double_kill(sc, d, paths, extra, stale, clean_out, case, phase_of(case["label"], case["k"], []), ctx)
             return
-        out = os.path.join(d, "crash")
+        out = os.path.join(d, "crash" + sc.get("out_suffix", ""))
         h = os.path.join(d, "home")
         k, mode = case["k"], case["mode"]
         fresh_reference(paths)
-        code = run.run_fork(build.base_argv(sc, paths, out, extra + start_dir(stale, out)), h,
-                            os.path.join(d, "crash.log"),
-                            env={"ABLAB_ISOQUANT_VERIF": "1"}, pre=lambda: crashwrap.install(k, mode, None))
+        code = first_run(sc, paths, out, extra + start_dir(stale, out), h, os.path.join(d, "crash.log"),
+                         crash=(k, mode, None))
         if code != crashwrap.EXIT_CODE:
             return
         rlog = os.path.join(d, "resume.log")
